@@ -37,6 +37,13 @@ for h in ["deltax","deltamap"]:
     for sig in ["delta-without-base:live:tags-filter","delta-wrong-base:live:tags-filter"]:
         known("C14",h,sig,"fossil delta + tags filter ("+("stream" if h=="deltax" else "map")+" subscription): recovery / state pages omit publications the filter withholds, but the live path computes the next delta against the broker's previous publication, e.g. history [p1 tag a, p2 tag b], filter t==a, client recovers [p1], then p3 arrives as patch(p2->p3): the delta does not apply to (or there is no) base the client holds")
 
+known('C25','sharedpoll','not-newest-at-quiescence:versioned:tracked-during-concurrent-phase','handleTrack classifies keys (cold / warm / up to date) from the trackKeys snapshot, but the connection joins the keyed hub only later (addSubscribers after the reply): a SharedPollPublish applied in between (entry.version 0->2 for a cold key, or 1->2 for a key the client already holds at 1) is broadcast to a hub that does not contain the connection yet, and afterwards the cold-key notify / timer polls see an unchanged version (request carries entry.version, needsBroadcast is not set for cold or up-to-date keys), so the tracked key never receives version 2 until the next change (coldtrack: track:1:a:0 | pub:a:2)')
+known('C25','sharedpoll','delta-base-mismatch:versioned+prevdata','versioned channel without KeepLatestData, backend supplies SharedPollRefreshItem.PrevData for the version it was asked about: applyRefreshResponse pairs e.PrevData with prevVersion = entry.version read at apply time; a SharedPollPublish (v2) applied while the poll (asked with version 1) is in flight makes the server label the patch data(v1)->data(v3) as based on v2, the connection at v2 passes the keyState.version == keyedDeltaPrevVersion check and receives a fossil delta that does not apply (bad checksum)')
+known('C25','sharedpoll','subscription-survives-epoch-change:keys-tracked-during-concurrent-phase','flipEpochAndCollectClients unsubscribes only connections found in the keyed hub (tracking >= 1 key at the instant of the flip): a connection subscribed under epoch e1 that tracks nothing at that instant (before its first track, between trackKeys and addSubscribers, or after untracking everything) keeps its subscription; when it then tracks a@1 (a version of e1) every publication of the new epoch with version <= 1 is filtered and it holds e1 data under a subscription the publisher epoch change should have ended')
+known('C25','sharedpoll','push-for-untracked-key:removal:after-untrack-reply','SharedPollRevokeKeys racing an untrack command: broadcastRemoval snapshots the hub subscribers, the connection untracks the key (reply written), then keyedWriteRemoval (which does not check that the key is still tracked) pushes Publication{Removed} for the key after the untrack reply')
+known('C25','sharedpoll','push-outside-subscription:removal:push','SharedPollRevokeKeys racing a client unsubscribe: keyedWriteRemoval -> writePublication checks flagSubscribed under RLock and enqueues outside the lock; the unsubscribe completes in between and the Removed publication is written after the unsubscribe reply')
+known('C25','sharedpoll','push-outside-subscription:update:push',"two publishers with different epochs at once (epoch flip-flop, thorough tier, 2 deviations): both flips collect the connection; the first Client.Unsubscribe has removed the channel but not yet run cleanupKeyed when the second Client.Unsubscribe (a no-op in c.unsubscribe) already writes its unsubscribe push, and the second publisher's broadcast then still finds the key in trackedKeys: a key update is pushed after the unsubscribe push")
+
 # ---- fixed (suppress nothing; the checks pass on the repaired tree)
 for sig,what in [("panic-extractPushData:p-header-lt3","extractPushData(\"__p__\") / \"__p__x\": header shorter than 3 bytes sliced out of range"),
   ("panic-extractPushData:d-nothing-after-prev","extractPushData(\"__d1:0::-0:\"): nothing after the previous payload, input[prevLen+1:] out of range"),
